@@ -32,6 +32,7 @@ structure RS where
   payload : List Nat := []
   sent : Bool := false
   implCalls : List (Nat × List Nat) := []  -- reversed
+  implCtx : List (String × String) := []   -- reversed: (dl=…, ek=…) per call
   implRet : Option (Nat × String × Bool × Bool) := none
   bad : Option String := none
 
@@ -65,6 +66,19 @@ def parseAtt (t : List String) : Option Attempt := do
   let drawn ← kvNat t "drawn"
   pure { untilCtx := u, dur := dur, ok := ok, perm := perm, throttle := th, rest := rest, drawn := drawn }
 
+def reasonOfString (x : String) : Option Reason :=
+  [Reason.ok, .perm, .exhausted, .deadline, .cancelled, .shutdown, .raw, .hang].find? (fun r => r.toString == x)
+
+/-- `<tag> call <start> <ids> dl=<ctx.Deadline() seen by the pusher> ek=<c|d|?|->` (`ek`: the `ctx.Err()` a
+pusher waiting for its context returns: Canceled / DeadlineExceeded; `?` when both fall on one instant) -/
+def callLine (c : Cfg) (e : Env) (script : List Attempt) (tag : String) (t : Nat) (ids : List Nat) (k : Nat) : String :=
+  let dl := match pusherDeadline c e t with | some d => toString d | none => "-"
+  let a := script.getD k { ok := true }
+  let ek := if !a.untilCtx then "-"
+    else if e.cancel.isSome && e.cancel == pusherDeadline c e t then "?"
+    else if pusherErrCanceled c e t then "c" else "d"
+  s!"{tag} call {t} {showIds ids} dl={dl} ek={ek}"
+
 def retryHandler : Handler RS where
   init := {}
   onOp := fun s toks =>
@@ -81,20 +95,23 @@ def retryHandler : Handler RS where
       match parseAtt rest with
       | some a => ({ s with script := a :: s.script }, [])
       | none => (s, ["obs bad-op"])
-    | ["send", p] =>
+    | "send" :: p :: more =>
       match s.cfg, s.env, (kv [p] "payload").bind idList with
       | some c, some e, some pl =>
-        let tr := send c e pl s.script.reverse
-        let lines := tr.calls.map (fun cl => s!"obs call {cl.t} {showIds cl.payload}") ++
+        let nd := kv more "mode" == some "nd"
+        let script := s.script.reverse
+        let tr := send c e pl script
+        let lines := (tr.calls.zipIdx.map (fun (cl, k) => callLine c e script "obs" cl.t cl.payload k)) ++
           [s!"obs ret {tr.tEnd} {tr.reason.toString} perm={b01 tr.permFlag} sd={b01 tr.sdFlag}"]
-        ({ s with payload := pl, sent := true }, lines)
+        -- equal-instant cases are only monitored (`tr` lines of the harness): no model observation to diff
+        ({ s with payload := pl, sent := true }, if nd then [] else lines)
       | _, _, _ => (s, ["obs bad-op"])
     | _ => (s, ["obs bad-op"])
   onObs := fun s toks =>
     match toks with
-    | [_, "call", t, ids] =>
+    | [_, "call", t, ids, dl, ek] =>
       match t.toNat?, idList ids with
-      | some t, some ids => { s with implCalls := (t, ids) :: s.implCalls }
+      | some t, some ids => { s with implCalls := (t, ids) :: s.implCalls, implCtx := (dl, ek) :: s.implCtx }
       | _, _ => { s with bad := some "unparsable call" }
     | [_, "ret", t, reason, p, sd] =>
       match t.toNat?, kvBool [p] "perm", kvBool [sd] "sd" with
@@ -106,10 +123,24 @@ def retryHandler : Handler RS where
     match s.bad, s.cfg, s.env, s.implRet with
     | some b, _, _, _ => [s!"prop retry=FAIL sig=C05/retry/unparsable {b}"]
     | none, some c, some e, some (t, reason, p, sd) =>
-      let o : Observed := { calls := s.implCalls.reverse, tEnd := t, isNil := reason == "ok", permFlag := p, sdFlag := sd }
-      match checkObserved c e s.payload s.script.reverse o with
-      | [] => ["prop retry=ok"]
-      | sig :: more => [s!"prop retry=FAIL sig={sig} also={more} calls={o.calls.map (·.1)} ret={t}/{reason}"]
+      let script := s.script.reverse
+      let calls := s.implCalls.reverse
+      let o : Observed := { calls := calls, tEnd := t, isNil := reason == "ok", permFlag := p, sdFlag := sd }
+      let p1 := match checkObserved c e s.payload script o with
+        | [] => "prop retry=ok"
+        | sig :: more => s!"prop retry=FAIL sig={sig} also={more} calls={o.calls.map (·.1)} ret={t}/{reason}"
+      -- monitor: the observation is the observation of a trace some scheduling order produces
+      let p2 := match reasonOfString reason with
+        | some r =>
+          if accepts c e r t p sd 0 0 s.payload script calls then "prop allowed=ok"
+          else s!"prop allowed=FAIL sig=C05/retry/not-an-allowed-behaviour calls={o.calls.map (·.1)} ret={t}/{reason}"
+        | none => s!"prop allowed=FAIL sig=C05/retry/unknown-return-reason {reason}"
+      -- what the pusher saw of the timeout sender and the request deadline
+      let ctxLines := (calls.zip s.implCtx.reverse).zipIdx.filterMap (fun (((ct, _), (dl, ek)), k) =>
+        let want := ((callLine c e script "obs" ct [] k).splitOn " ").drop 4
+        if want == [dl, ek] || ek == "ek=?" && want.take 1 == [dl] then none else some s!"call{k}:{dl},{ek}≠{want}")
+      let p3 := if ctxLines.isEmpty then "prop pusherctx=ok" else s!"prop pusherctx=FAIL sig=C05/timeout/pusher-context-mismatch {ctxLines}"
+      [p1, p2, p3]
     | none, _, _, _ => ["prop retry=FAIL sig=C05/retry/no-return-observed"]
 
 /-! ### error trees: prefix encoding `L | W x | P x | T<d> x | D<ids> x | O x | S x | J<n> x1 … xn` -/
